@@ -234,10 +234,11 @@ def ob_containment(env, maxlen):
         fos = FakeOS(maxlen)
         holder["fos"] = fos
         core = env.core
+        # a real instance (so that every attribute __init__ sets exists), then the two path attributes become symbolic
+        t = core.ExternalTensor("w", 0, 4, env.ir.DataType.UINT8, shape=core.Shape([4]), name="t", base_dir="/b")
         saved = core.__dict__.get("os")
         core.__dict__["os"] = fos
         try:
-            t = core.ExternalTensor.__new__(core.ExternalTensor)
             t._base_dir = SStr(base)
             t._location = SStr(loc)
             try:
@@ -493,6 +494,162 @@ def ob_entry_points(env):
                 chk.note_inconclusive(f"{name}: counterexample did not reproduce")
 
 
+def ob_repeated_reads(env):
+    """The check is performed on EVERY read, not once per tensor object: between two reads of the same tensor the
+    file at its location may have been replaced (hard link / symlink to a file outside).  The real
+    `_check_path_containment` runs both times; the link count reported by os.stat for the second read is symbolic."""
+    chk = env.chk
+    core = env.core
+    ir = env.ir
+    n2 = z3.Int("nlink_at_second_read")
+
+    class Stop(Exception):
+        pass
+
+    for first in ("numpy", "tobytes", "tofile", "__array__"):
+        for second in ("numpy", "tobytes", "tofile", "__array__"):
+            name = f"repeated_reads[{first} then {second}]"
+            events = []
+
+            def do(t, entry):
+                import io
+
+                try:
+                    if entry == "numpy":
+                        t.numpy()
+                    elif entry == "tobytes":
+                        t.tobytes()
+                    elif entry == "__array__":
+                        t.__array__()
+                    else:
+                        t.tofile(io.BytesIO())
+                except Stop:
+                    return "opened"
+                except ValueError:
+                    return "rejected"
+                return "returned"
+
+            def body(first=first, second=second):
+                del events[:]
+                calls = []
+
+                class RecOS:
+                    sep = "/"
+                    path = posixpath
+                    fspath = staticmethod(os.fspath)
+                    PathLike = os.PathLike
+
+                    @staticmethod
+                    def stat(p_, **kw):
+                        calls.append(p_)
+                        events.append("stat")
+                        return StatResult(1 if phase[0] == 1 else zsym.sym_int(n2))
+
+                    def __getattr__(self, k):
+                        return getattr(os, k)
+
+                class RecPath:
+                    def __getattr__(self, k):
+                        return getattr(posixpath, k)
+
+                    @staticmethod
+                    def realpath(p_, strict=False):
+                        events.append("realpath")
+                        return posixpath.normpath(posixpath.join("/cwd", p_))
+
+                    @staticmethod
+                    def abspath(p_):
+                        return posixpath.normpath(posixpath.join("/cwd", p_))
+
+                ros = RecOS()
+                ros.path = RecPath()
+
+                def fake_open(*a, **k):
+                    events.append("open")
+                    raise Stop()
+
+                phase = [1]
+                saved = (core.__dict__.get("os"), core.__dict__.get("open"))
+                core.__dict__["os"] = ros
+                core.__dict__["open"] = fake_open
+                try:
+                    t = core.ExternalTensor("w.bin", 0, 4, ir.DataType.UINT8, shape=core.Shape([4]), name="t", base_dir="/m")
+                    r1 = do(t, first)
+                    t.release()
+                    del events[:]
+                    phase[0] = 2
+                    r2 = do(t, second)
+                finally:
+                    core.__dict__["os"] = saved[0]
+                    if saved[1] is None:
+                        core.__dict__.pop("open", None)
+                    else:
+                        core.__dict__["open"] = saved[1]
+                opened2 = "open" in events
+                probed2 = "stat" in events and (not opened2 or events.index("stat") < events.index("open"))
+                # the second read may open the file only after probing it again, and only if the link count is acceptable
+                nl = zsym.zint(zsym.sym_int(n2)) if zsym.MODEL is None else z3.IntVal(zsym.sym_int(n2))
+                return z3.And(z3.BoolVal(r1 == "opened"), z3.Implies(z3.BoolVal(opened2), z3.And(z3.BoolVal(probed2), nl <= 1))), dict(first=r1, second=r2, events=list(events))
+
+            r = explore(body, [n2 >= 1, n2 <= 3])
+            chk.add_stats(r.stats())
+            chk.case(name)
+            if r.unknown:
+                chk.note_inconclusive(f"{name}: unknown")
+            if r.cex is not None:
+                model = r.cex[0]
+                holds, info = zsym.concrete_run(body, model)
+                if holds:
+                    chk.note_inconclusive(f"{name}: counterexample did not reproduce")
+                    continue
+                bad, detail = replay_repeated(first, second)
+                if bad:
+                    chk.violation("C10:repeated-read", f"{name}: with link count {zsym.model_int(model, n2)} at the second read the file was opened ({info}); real files: {detail}",
+                                  dict(kind="repeated", first=first, second=second))
+                else:
+                    chk.note_inconclusive(f"{name}: stub-level counterexample did not reproduce on real files ({detail})")
+
+
+def replay_repeated(first, second):
+    """real files: read a legitimate tensor, replace its file by a hard link to a file outside the base directory, read again"""
+    import io
+
+    import onnx_ir as ir
+
+    root = tempfile.mkdtemp(prefix="c10r_")
+    try:
+        base = os.path.join(root, "model")
+        os.makedirs(base)
+        with open(os.path.join(base, "w.bin"), "wb") as f:
+            f.write(b"GOOD")
+        with open(os.path.join(root, "secret.bin"), "wb") as f:
+            f.write(b"EVIL")
+        t = ir.ExternalTensor("w.bin", 0, 4, ir.DataType.UINT8, shape=ir.Shape([4]), name="t", base_dir=base)
+
+        def do(entry):
+            if entry == "numpy":
+                return bytes(t.numpy().tobytes())
+            if entry == "tobytes":
+                return bytes(t.tobytes())
+            if entry == "__array__":
+                return bytes(t.__array__().tobytes())
+            b = io.BytesIO()
+            t.tofile(b)
+            return b.getvalue()
+
+        do(first)
+        t.release()
+        os.remove(os.path.join(base, "w.bin"))
+        os.link(os.path.join(root, "secret.bin"), os.path.join(base, "w.bin"))
+        try:
+            data = do(second)
+        except ValueError:
+            return False, "second read rejected"
+        return True, f"second read through {second}() returned {data!r} from a hard link to a file outside the base directory"
+    finally:
+        shutil.rmtree(root, ignore_errors=True)
+
+
 def validate_dirname():
     n = 0
     for p in ["a", "a/b", "/a", "/", "//a", "a//b", "a/b/", "/a/b/c.onnx", "./m.onnx", "../m.onnx", "m.onnx", "x/../m.onnx", "//", "a/", "///a///b"]:
@@ -555,12 +712,24 @@ def ob_load_base_dir(env, maxlen):
         bd = got.get("base_dir")
         if bd is None:
             return False
-        if isinstance(bd, str):
-            return bool(bd), dict(base_dir=bd)
-        return z3.Length(zstr(bd)) > 0
+        if zsym.MODEL is not None:      # concrete replay of the harness body
+            bd = os.fspath(bd)
+            want = posixpath.dirname(path) or "."
+            return bool(bd) and _same_dir_lexically(bd, want), dict(base_dir=bd)
+        # the directory that contains the model file: dirname(path), or "." for a bare file name.  Any other string is
+        # only acceptable if it denotes the same directory under EVERY symlink layout - decided by the concrete replay.
+        d = zstr(sym_dirname(SStr(p)))
+        want = z3.If(z3.Length(d) == 0, z3.StringVal("."), d)
+        rel = z3.Not(z3.PrefixOf(z3.StringVal("/"), p))
+        prefer = [[rel, z3.PrefixOf(z3.StringVal("a/../"), p)], [rel, z3.Contains(p, z3.StringVal("a/../"))], [rel, z3.Contains(p, z3.StringVal(".."))], [rel]]
+        return z3.And(z3.Length(zstr(bd)) > 0, zstr(bd) == want), dict(prefer=prefer)
 
-    r = explore(body, assume, small=[z3.Length(p)])
+    # relative spellings first (they are the ones a user types), then absolute ones
+    r = explore(body, assume + [z3.Not(z3.PrefixOf(S("/"), p))], small=[z3.Length(p)])
     chk.add_stats(r.stats())
+    if r.cex is None and not r.unknown:
+        r = explore(body, assume + [z3.PrefixOf(S("/"), p)], small=[z3.Length(p)])
+        chk.add_stats(r.stats())
     chk.case(name)
     if r.unknown:
         chk.note_inconclusive(f"{name}: unknown")
@@ -572,7 +741,77 @@ def ob_load_base_dir(env, maxlen):
         if bad:
             chk.violation("C10:load:empty_base_dir", f"{name}: {detail}", conc)
         else:
-            chk.note_inconclusive(f"{name}: model path {pv!r} did not reproduce ({detail})")
+            bad2, detail2 = replay_load_dir(pv)
+            if bad2:
+                chk.violation("C10:load:wrong_base_dir", f"{name}: {detail2}", dict(kind="load_dir", path=pv))
+            else:
+                chk.note_inconclusive(f"{name}: model path {pv!r} did not reproduce ({detail}; {detail2})")
+
+
+def _same_dir_lexically(a, b):
+    """equal after dropping empty and '.' components (sound under every symlink layout; '..' is NOT collapsed)"""
+    ca = [c for c in a.split("/") if c not in ("", ".")]
+    cb = [c for c in b.split("/") if c not in ("", ".")]
+    return ca == cb and a.startswith("/") == b.startswith("/")
+
+
+def replay_load_dir(path):
+    """Real directories in which every component that is followed by '..' is a symlink into another tree: the base
+    directory handed to external tensors must resolve to the directory that really contains the model file."""
+    import onnx
+    import onnx_ir as ir
+
+    root = tempfile.mkdtemp(prefix="c10d_")
+    cwd = os.getcwd()
+    try:
+        work = os.path.join(root, "work")
+        os.makedirs(work)
+        os.chdir(work)
+        rel = path
+        if os.path.isabs(rel):
+            rel = root + "/abs" + path       # the same component structure under a private root
+            os.makedirs(root + "/abs", exist_ok=True)
+        comps = os.path.dirname(rel).split("/") if os.path.dirname(rel) else []
+        cur = (root + "/abs") if os.path.isabs(rel) else "."
+        if os.path.isabs(rel):
+            comps = os.path.dirname(path).split("/")
+        n = 0
+        for i, c in enumerate(comps):
+            if c in ("", "."):
+                continue
+            nxt = os.path.join(cur, c)
+            if c == "..":
+                cur = nxt
+                continue
+            follows_dotdot = i + 1 < len(comps) and comps[i + 1] == ".."
+            if not os.path.lexists(nxt):
+                if follows_dotdot:
+                    n += 1
+                    target = os.path.join(root, "elsewhere", f"n{n}", "inner")
+                    os.makedirs(target)
+                    os.symlink(target, nxt)
+                else:
+                    os.makedirs(nxt, exist_ok=True)
+            cur = nxt
+        t = onnx.TensorProto(name="w", data_type=onnx.TensorProto.UINT8, dims=[4], data_location=onnx.TensorProto.EXTERNAL)
+        for k, v in (("location", "w.bin"), ("offset", "0"), ("length", "4")):
+            e = t.external_data.add()
+            e.key, e.value = k, v
+        m = onnx.helper.make_model(onnx.helper.make_graph([], "g", [], [], initializer=[t]))
+        try:
+            onnx.save(m, rel)
+        except OSError as e:
+            return False, f"cannot create the model file: {e}"
+        true_dir = os.path.realpath(os.path.dirname(rel) or ".")
+        model = ir.load(rel)
+        base = model.graph.initializers["w"].const_value.base_dir
+        got = os.path.realpath(base)
+        if got != true_dir:
+            return True, f"ir.load({rel!r}) gave base_dir={str(base)!r}, which resolves to {got.replace(root, '<root>')} while the model file lives in {true_dir.replace(root, '<root>')} (component before '..' is a symlink)"
+        return False, f"base_dir={str(base)!r} resolves to the model's directory"
+    finally:
+        os.chdir(cwd)
+        shutil.rmtree(root, ignore_errors=True)
 
 
 def replay_load(path):
@@ -632,7 +871,7 @@ def run(chk, tier):
     chk.not_decided += [
         "that CPython's normpath/realpath and the kernel implement their contracts (symlink/hard-link resolution is the stub's contract)",
         "Windows path semantics (normcase, drive letters, backslashes)",
-        "a base directory changed after the first successful load (cached mapping)",
+        "a base directory changed after the first successful load",
     ]
     chk.validation.append(f"sym_dirname vs posixpath.dirname: {validate_dirname()} concrete paths")
     chk.validation.append(f"FakePath.join vs posixpath.join: {_validate_join()} concrete pairs")
@@ -641,6 +880,7 @@ def run(chk, tier):
                       alphabet=ALPHA + "/")
     ob_containment(env, L)
     ob_entry_points(env)
+    ob_repeated_reads(env)
     ob_load_base_dir(env, L)
     chk.extra["rule"] = "one case per obligation (containment / each entry point / load base dir); each decided for all strings within the length bound"
 
@@ -664,7 +904,11 @@ def _validate_join():
 
 
 def replay(rec):
-    if rec.get("kind") == "load":
+    if rec.get("kind") == "load_dir":
+        bad, detail = replay_load_dir(rec["path"])
+    elif rec.get("kind") == "repeated":
+        bad, detail = replay_repeated(rec["first"], rec["second"])
+    elif rec.get("kind") == "load":
         bad, detail = replay_load(rec["path"])
     elif rec.get("kind") == "containment":
         bad, detail = realise_and_read(rec)
